@@ -1,6 +1,12 @@
 package main
 
-// C20 - the completion index behaves as a set of words (spec/Trie.tla, spec/Trie_Trace.tla).
+// C20 - the completion index behaves as a set of words (spec/Trie.tla, spec/Trie_Trace.tla; notes in docs/C20.md).
+//
+//   MC   Trie.tla: abstract set of words next to a transcription of trie/trie.go; MembershipOK, PrefixOK, MinMaxOK, GrowOnly.
+//   GEN  every explored transition (plain insertions; with Names also top-level definitions recorded by the evaluator) is
+//        replayed on the real trie / evaluator and observed through Contains, PrefixAll and the TAB callback.
+//   TV   recorded histories (seeded random; one node filled with all 256 byte values) judged by Trie_Trace.tla.
+//   plus REPL sessions on the index as repl.Interactive sets it up (c20EvalFed).
 
 import (
 	"bytes"
@@ -15,16 +21,25 @@ import (
 	"grol.io/grol/eval"
 	"grol.io/grol/object"
 	"grol.io/grol/repl"
+	"grol.io/grol/token"
 	"grol.io/grol/trie"
 )
 
 func init() {
 	props["C20"] = propDef{check: checkC20, replay: replayC20,
-		rule: "case = one TLC-emitted transition (witness insertion order + inserted word) replayed on trie.Trie, or one random insertion trace validated by Trie_Trace.tla; distinct by (witness, word); non-trivial when the trie was non-empty before the insert"}
+		rule: "case = one TLC-emitted transition (witness history + step: an inserted word, or a name defined at top level of a state that records its identifiers in the index) replayed on trie.Trie / the evaluator, or one insertion trace (seeded random, or filling one node with all 256 bytes) recorded from the real trie and validated by Trie_Trace.tla, or one input of a REPL session feeding the index; distinct by (witness, step); non-trivial when the trie was non-empty before the step"}
+}
+
+// trieOp is one step of a witness history: Op "ins" = trie.Insert(W); "var" / "func" = a top-level definition of the name W
+// evaluated on a state whose identifiers are recorded in the index (object/state.go record()).
+type trieOp struct {
+	Op string `json:"op"`
+	W  []int  `json:"w"`
 }
 
 type trieGenLine struct {
-	H   [][]int           `json:"h"`
+	H   []trieOp          `json:"h"`
+	Op  string            `json:"op"`
 	W   []int             `json:"w"`
 	Set [][]int           `json:"set"`
 	Lcp []json.RawMessage `json:"lcp"`
@@ -164,6 +179,10 @@ func c20EvalFed(c *Ctx) {
 			"zmac = macro(zcond, zbody) {quote(if unquote(zcond) {unquote(zbody)})}", "zmac(true, 1)", "zmac(zalpha == 1, zbeta(1, 2))", "ZCONST = [1]", "del(zalpha)", "zalpha = 2",
 			"zd = {\"zkey\": 1}", "zl = zw => zw + 1", "zl(1)", "for ztop = 2 {ztwo = ztop}", "zf2 = func() {zm2 = macro(zx) {quote(unquote(zx))}; zm2(1)}", "zf2()"},
 		{"m1 = macro(ma) {quote(unquote(ma) + 1)}", "m1(1)", "func ff(fa, fb) {m1(fa)}", "ff(1, 2)", "m1 = macro(mb, mc) {quote(unquote(mb))}", "m1(1, 2)", "eval(\"ev1 = 5\")", "unjson(\"[1]\")"},
+		// names that meet words the index holds from the start (repl.Interactive: keyword + " ", builtin + "(", extension + "(",
+		// the bare word history): the same word, a prefix of one, an extension of one; defined, deleted and defined again
+		{"histo = 1", "history = 3", "history + histo", "historyx = 2", "func hist() {1}", "del(history)", "func history() {2}", "i = 1", "iff = 2", "le = 1", "lenx = 2",
+			"func printl() {1}", "sprint = 1", "sprintfx = 2", "func sprin() {3}", "del(i)", "i = 5", "inf = 1", "infox = 1", "histo = 2"},
 	}
 	for si, sess := range sessions {
 		n, bad := c20EvalFedSession(c, si, sess)
@@ -178,7 +197,19 @@ func c20EvalFedSession(c *Ctx, si int, sess []string) (int, string) {
 	s := eval.NewState()
 	var out bytes.Buffer
 	s.Out, s.LogOut = &out, &out
+	// the index as repl.Interactive sets it up before the first input
 	tr := trie.NewTrie()
+	tokInfo := token.Info()
+	for v := range tokInfo.Keywords {
+		tr.Insert(v + " ")
+	}
+	for v := range tokInfo.Builtins {
+		tr.Insert(v + "(")
+	}
+	for k := range object.ExtraFunctions() {
+		tr.Insert(k + "(")
+	}
+	tr.Insert("history")
 	s.RegisterTrie(tr)
 	_, base := tr.PrefixAll("")
 	baseSet := map[string]bool{}
@@ -202,10 +233,41 @@ func c20EvalFedSession(c *Ctx, si int, sess []string) (int, string) {
 		if c != nil {
 			c.Case(fmt.Sprintf("evalfed:%d:%d:%s", si, i, in), true)
 		}
+		have := map[string]bool{}
 		for _, w := range words {
+			have[w] = true
 			if !baseSet[w] && ever[w] == "" {
 				return i, fmt.Sprintf("after %q the index holds %q, which is not a top-level name defined in the session", in, w)
 			}
+		}
+		for _, w := range base {
+			if !have[w] {
+				return i, fmt.Sprintf("after %q the index no longer lists %q, which it held before the session", in, w)
+			}
+		}
+		// membership and the prefix query agree with that list: for every word, and for every word with one more blank / parenthesis
+		for _, w := range words {
+			for _, x := range []string{w, w + " ", w + "(", w + "  "} {
+				if tr.Contains(x) != have[x] {
+					return i, fmt.Sprintf("after %q: Contains(%q)=%v, but the index lists %q: %v", in, x, tr.Contains(x), x, have[x])
+				}
+			}
+			if _, sub := tr.PrefixAll(w); len(sub) == 0 || sub[0] != w {
+				return i, fmt.Sprintf("after %q: PrefixAll(%q)=%q does not start with the word itself", in, w, sub)
+			}
+			for k, x := range []string{w + " ", w + "("} {
+				_, sub := tr.PrefixAll(w)
+				listed := false
+				for _, y := range sub {
+					listed = listed || y == x
+				}
+				if listed != have[x] {
+					return i, fmt.Sprintf("after %q: PrefixAll(%q) lists %q: %v, the index as a whole: %v (%d)", in, w, x, listed, have[x], k)
+				}
+			}
+		}
+		if leak := c20FreshIndexProbe(); leak != "" {
+			return i, fmt.Sprintf("after %q: %s", in, leak)
 		}
 		for name, isFunc := range g {
 			suf := " "
@@ -217,8 +279,14 @@ func c20EvalFedSession(c *Ctx, si int, sess []string) (int, string) {
 			}
 		}
 		for _, pfx := range []string{"zp", "zlo", "zq", "zi", "zco", "zbo", "zw", "zx", "zm2", "zke", "ma", "mb", "fa"} { // never global
-			if nl, _, ok, _ := completionLine(ac, pfx); ok {
-				return i, fmt.Sprintf("after %q, tab on %q completes to %q: never defined at top level", in, pfx, nl)
+			_, sub := tr.PrefixAll(pfx)
+			for _, w := range sub {
+				if !baseSet[w] {
+					return i, fmt.Sprintf("after %q, the index offers %q for %q: never defined at top level", in, w, pfx)
+				}
+			}
+			if nl, _, ok, _ := completionLine(ac, pfx); ok != (len(sub) > 0) || (ok && !strings.HasPrefix(sub[0], nl)) {
+				return i, fmt.Sprintf("after %q, tab on %q completes to %q (%v): the words with that prefix are %q", in, pfx, nl, ok, sub)
 			}
 		}
 		if c != nil {
@@ -249,7 +317,16 @@ func c14DataGlobalsAndFuncs(s *eval.State) map[string]bool {
 	return out
 }
 
-func trieCfg(alpha []int, maxLen, maxSet int, mark, emit bool, trace bool) string {
+func trieCfg(alpha []int, maxLen, maxSet int, mark, emit bool, trace bool, names ...string) string {
+	s := trieCfgNoNames(alpha, maxLen, maxSet, mark, emit, trace)
+	q := make([]string, len(names))
+	for i, n := range names {
+		q[i] = tlaStr(n)
+	}
+	return strings.Replace(s, "CONSTANTS\n", "CONSTANTS\n Names = {"+strings.Join(q, ", ")+"}\n", 1)
+}
+
+func trieCfgNoNames(alpha []int, maxLen, maxSet int, mark, emit bool, trace bool) string {
 	as := make([]string, len(alpha))
 	for i, a := range alpha {
 		as[i] = fmt.Sprint(a)
@@ -268,37 +345,384 @@ func trieCfg(alpha []int, maxLen, maxSet int, mark, emit bool, trace bool) strin
 	return s + "INIT Init\nNEXT Next\nVIEW view\nINVARIANTS MembershipOK PrefixOK MinMaxOK\nPROPERTY GrowOnly\n"
 }
 
-func trieReplayCase(h [][]int, w []int) *trie.Trie {
-	tr := trie.NewTrie()
-	for _, x := range h {
-		tr.Insert(bytesOf(x))
-	}
-	tr.Insert(bytesOf(w))
-	return tr
+// trieSession is a completion index used the way a REPL session uses it: words inserted directly (what repl.Interactive
+// does for keywords, builtins and `history`) and names recorded by the evaluator on every top-level definition.
+type trieSession struct {
+	ac   *repl.AutoComplete
+	st   *eval.State   // nil until the first recorded name
+	base []string      // what RegisterTrie put in the index by itself
+	out  *bytes.Buffer // evaluator output (discarded)
+	defd map[string]bool
 }
 
-// trieReplaySession replays the witness history like an interactive session: one completion object for the whole
-// history, the TAB callback exercised on every prefix after every insertion.
-func trieReplaySession(h [][]int, w []int, prefixes []string) *repl.AutoComplete {
-	ac := repl.NewCompletion()
+func newTrieSession() *trieSession {
+	return &trieSession{ac: repl.NewCompletion(), out: &bytes.Buffer{}, defd: map[string]bool{}}
+}
+
+// apply executes one step of a history on the real code.
+func (ts *trieSession) apply(op trieOp) error {
+	name := bytesOf(op.W)
+	var src string
+	switch op.Op {
+	case "ins":
+		ts.ac.Trie.Insert(name)
+		return nil
+	case "var":
+		src = name + " = 1"
+	case "func":
+		src = "func " + name + "() {1}"
+	default:
+		return fmt.Errorf("unknown history step %q", op.Op)
+	}
+	if ts.st == nil {
+		before := map[string]bool{}
+		_, ws := ts.ac.Trie.PrefixAll("")
+		for _, w := range ws {
+			before[w] = true
+		}
+		ts.st = eval.NewState()
+		ts.st.Out, ts.st.LogOut = ts.out, ts.out
+		ts.st.RegisterTrie(ts.ac.Trie)
+		_, ws = ts.ac.Trie.PrefixAll("")
+		for _, w := range ws {
+			if !before[w] {
+				ts.base = append(ts.base, w)
+			}
+		}
+	}
+	// record() runs when a top-level name is created; assigning to a name the session already has is an update of the
+	// store that records nothing, so the name is deleted first (the index keeps its words) and defined again.
+	if ts.defd[name] {
+		src = "del(" + name + "); " + src
+	}
+	ts.defd[name] = true
+	ts.out.Reset()
+	_, panicked, errs, _ := repl.EvalOne(context.Background(), ts.st, src, ts.out, repl.Options{All: true, ShowEval: true, NoColor: true})
+	if panicked || len(errs) > 0 {
+		return fmt.Errorf("definition %q failed: panicked=%v errors=%v", src, panicked, errs)
+	}
+	return nil
+}
+
+// trieReplayOps replays a witness history and the transition's own step. With a non-nil prefix list it is replayed like
+// an interactive session: the TAB callback exercised on every prefix before every step.
+func trieReplayOps(h []trieOp, last trieOp, tabs []string) (*trieSession, error) {
+	ts := newTrieSession()
 	tab := func() {
-		for _, p := range prefixes {
-			completionLine(ac, p)
+		for _, p := range tabs {
+			completionLine(ts.ac, p)
+		}
+	}
+	for _, x := range h {
+		tab()
+		if err := ts.apply(x); err != nil {
+			return nil, err
 		}
 	}
 	tab()
-	for _, x := range h {
-		ac.Trie.Insert(bytesOf(x))
-		tab()
+	if err := ts.apply(last); err != nil {
+		return nil, err
 	}
-	ac.Trie.Insert(bytesOf(w))
-	return ac
+	return ts, nil
+}
+
+// trieRecorder records operation traces of the real trie / completion callback as ndjson for Trie_Trace.tla.
+type trieRecorder struct {
+	buf    bytes.Buffer
+	enc    *json.Encoder
+	ac     *repl.AutoComplete
+	events int
+}
+
+func newTrieRecorder() *trieRecorder {
+	r := &trieRecorder{}
+	r.enc = json.NewEncoder(&r.buf)
+	return r
+}
+
+func (r *trieRecorder) reset() {
+	_ = r.enc.Encode(map[string]any{"e": "reset"})
+	r.events++
+	r.ac = repl.NewCompletion()
+}
+
+// insert performs the real Insert(w) and records membership (non-empty queries), PrefixAll and the TAB callback's answer
+// for every query: q = [prefix, length, words, tab ok, tab line, tab position].
+func (r *trieRecorder) insert(w string, queries []string) {
+	tr := r.ac.Trie
+	tr.Insert(w)
+	mem, q := []any{}, []any{}
+	for _, x := range queries {
+		if x != "" {
+			m := 0
+			if tr.Contains(x) {
+				m = 1
+			}
+			mem = append(mem, []any{intsOf(x), m})
+		}
+		n, ws := tr.PrefixAll(x)
+		wl := make([][]int, len(ws))
+		for i, y := range ws {
+			wl[i] = intsOf(y)
+		}
+		nl, np, ok, _ := completionLine(r.ac, x)
+		q = append(q, []any{intsOf(x), n, wl, b2i(ok), intsOf(nl), np})
+	}
+	_ = r.enc.Encode(map[string]any{"e": "ins", "w": intsOf(w), "mem": mem, "q": q})
+	r.events++
+}
+
+var errC20Stop = fmt.Errorf("stop")
+
+// c20FreshIndexProbe: a brand new index holding one word behaves as the set of that word ("" = it does).
+func c20FreshIndexProbe() string {
+	tr := trie.NewTrie()
+	tr.Insert("q")
+	if msg := trieObserve(tr, map[string]bool{"q": true}, []string{"q", "q ", "q(", "q  ", "qq", " "}, []string{"", "q", "q ", "q("}, map[string]int{}); msg != "" {
+		return "a new index holding only \"q\": " + msg
+	}
+	return ""
+}
+
+func c20AllBytes() []int {
+	a := make([]int, 256)
+	for i := range a {
+		a[i] = i
+	}
+	return a
+}
+
+// c20WideTraces: histories that fill the child table of one node: prefix + b + tail for all 256 bytes b.
+func c20WideTraces(c *Ctx) *trieRecorder {
+	type shape struct{ prefix, tail string }
+	shapes := []shape{{"", ""}, {"v", "x"}, {"ab", ""}, {"", "yz"}}
+	orders := []string{"ends-to-middle", "ascending", "random", "descending"}
+	rec := newTrieRecorder()
+	run := func(sh shape, order string) {
+		bs := make([]byte, 256)
+		for i := range bs {
+			switch order {
+			case "ascending", "random":
+				bs[i] = byte(i)
+			case "descending":
+				bs[i] = byte(255 - i)
+			default:
+				if i%2 == 0 {
+					bs[i] = byte(i / 2)
+				} else {
+					bs[i] = byte(255 - i/2)
+				}
+			}
+		}
+		if order == "random" {
+			c.Rng.Shuffle(len(bs), func(i, j int) { bs[i], bs[j] = bs[j], bs[i] })
+		}
+		rec.reset()
+		for _, b := range bs {
+			w := sh.prefix + string([]byte{b}) + sh.tail
+			ql := []string{sh.prefix, sh.prefix + string([]byte{b})}
+			if sh.tail != "" {
+				ql = append(ql, w)
+			}
+			if len(sh.prefix) > 1 {
+				ql = append(ql, sh.prefix[:1])
+			}
+			ql = append(ql, w+"a")
+			rec.insert(w, ql)
+		}
+		c.Case(fmt.Sprintf("tv-wide:%q:%q:%s:%x", sh.prefix, sh.tail, order, bs[:8]), true)
+		c.AddTraces(1)
+	}
+	if c.Thorough() {
+		for _, sh := range shapes {
+			for _, o := range orders {
+				run(sh, o)
+			}
+		}
+	} else {
+		k := c.Rng.Intn(len(orders))
+		for i, sh := range shapes {
+			run(sh, orders[(i+k)%len(orders)])
+		}
+	}
+	return rec
+}
+
+func c20TraceOpt(traceBytes []byte, alpha []int) TLCOpt {
+	return TLCOpt{Spec: "Trie_Trace", Cfg: trieCfg(alpha, 6, 1000, true, false, true), Workers: 1,
+		Files: map[string][]byte{"trie_trace.ndjson": traceBytes}, AllowError: true}
+}
+
+// c20JudgeTrace: Trie_Trace.tla's verdict on a recorded trace; a rejection is a failing case (false = stop the check).
+func c20JudgeTrace(c *Ctx, run func() (*TLCResult, error), traceBytes []byte, sig string) bool {
+	r, err := run()
+	if err != nil {
+		c.Infra(err)
+		return false
+	}
+	if r.ErrText == "" {
+		return true
+	}
+	if !strings.Contains(r.Out, "TRACE_REJECTED_AT_LINE") {
+		c.Infra(fmt.Errorf("Trie_Trace failed: %s", r.ErrText))
+		return false
+	}
+	line := 0
+	if i := strings.Index(r.Out, "TRACE_REJECTED_AT_LINE"); i >= 0 {
+		fmt.Sscanf(strings.Trim(r.Out[i+len("TRACE_REJECTED_AT_LINE"):i+len("TRACE_REJECTED_AT_LINE")+14], "\", >\n"), "%d", &line)
+	}
+	lines := bytes.Split(traceBytes, []byte("\n"))
+	// cut the rejected trace out (from its reset to the rejected line) for the replay file
+	start := line - 1
+	for start > 0 && !bytes.Contains(lines[start], []byte(`"reset"`)) {
+		start--
+	}
+	var ws [][]int
+	for _, ln := range lines[start:min(line, len(lines))] {
+		var ev struct {
+			W []int `json:"w"`
+		}
+		_ = json.Unmarshal(ln, &ev)
+		if ev.W != nil {
+			ws = append(ws, ev.W)
+		}
+	}
+	c.Fail(sig, fmt.Sprintf("Trie_Trace rejected the recorded trace at line %d (after %d insertions of that trace)", line, len(ws)),
+		map[string]any{"check": "tv", "inserts": ws})
+	return true
+}
+
+// c20CorruptCompletion: the trace with the line returned by TAB made one byte shorter in the last event that has one.
+func c20CorruptCompletion(trace []byte) ([]byte, error) {
+	lines := bytes.Split(bytes.TrimRight(trace, "\n"), []byte("\n"))
+	for i := len(lines) - 1; i >= 0; i-- {
+		var ev map[string]json.RawMessage
+		var q [][]json.RawMessage
+		if json.Unmarshal(lines[i], &ev) != nil || json.Unmarshal(ev["q"], &q) != nil {
+			continue
+		}
+		for k := len(q) - 1; k >= 0; k-- {
+			var nl []int
+			if len(q[k]) != 6 || json.Unmarshal(q[k][4], &nl) != nil || len(nl) == 0 {
+				continue
+			}
+			q[k][4], _ = json.Marshal(nl[:len(nl)-1])
+			ev["q"], _ = json.Marshal(q)
+			lines[i], _ = json.Marshal(ev)
+			return append(bytes.Join(lines, []byte("\n")), '\n'), nil
+		}
+	}
+	return nil, fmt.Errorf("vacuous binding: no successful completion in the recorded traces")
 }
 
 func checkC20(c *Ctx) {
+	t0 := time.Now()
+	lap := func(what string) {
+		c.Note("C20 phase %s: %.1fs", what, time.Since(t0).Seconds())
+		t0 = time.Now()
+	}
 	c.Assume("fortio.org/terminal.Terminal{Out: buffer} is a faithful stand-in for the interactive terminal in the completion callback")
+	// every TLC run of the check is started up front (a JVM start costs seconds) and joined where its result is needed
+	type tlcFuture func() (*TLCResult, error)
+	tlcSem := make(chan struct{}, 4)
+	startTLC := func(o TLCOpt) tlcFuture {
+		var r *TLCResult
+		var err error
+		done := make(chan struct{})
+		go func() {
+			defer close(done)
+			tlcSem <- struct{}{}
+			defer func() { <-tlcSem }()
+			r, err = c.TLC(o)
+		}()
+		return func() (*TLCResult, error) { <-done; return r, err }
+	}
 	// 1. design-level non-vacuity: the spec of the code *before* the repair must violate MembershipOK.
-	r, err := c.TLC(TLCOpt{Spec: "Trie", Cfg: trieCfg([]int{97, 98}, 2, 6, false, false, false), Workers: 4, AllowError: true})
+	designRun := startTLC(TLCOpt{Spec: "Trie", Cfg: trieCfg([]int{97, 98}, 2, 6, false, false, false), Workers: 2, AllowError: true})
+	// 2b (started here, judged below). TV, wide nodes: every one of the 256 byte values follows the same prefix (the child table
+	// of one node fills up completely), inserted in several orders; after each insertion the words below the node, their common
+	// prefix and what TAB returns are recorded. Judged by the same Trie_Trace.tla over the full byte alphabet.
+	wide := c20WideTraces(c)
+	wideRun := startTLC(c20TraceOpt(wide.buf.Bytes(), c20AllBytes()))
+
+	// 2. TV: random longer histories on the real trie, validated by Trie_Trace.tla.
+	alpha := []int{0, 97, 98, 255}
+	nTraces := c.Pick(60, 600)
+	rec := newTrieRecorder()
+	for t := 0; t < nTraces; t++ {
+		rec.reset()
+		var inserted []string
+		steps := 3 + c.Rng.Intn(8)
+		for s := 0; s < steps; s++ {
+			var w string
+			if len(inserted) > 0 && c.Rng.Intn(3) == 0 { // prefix or extension of an earlier word
+				o := inserted[c.Rng.Intn(len(inserted))]
+				if c.Rng.Intn(2) == 0 && len(o) > 1 {
+					w = o[:1+c.Rng.Intn(len(o)-1)]
+				} else if len(o) < 5 {
+					w = o + string([]byte{byte(alpha[c.Rng.Intn(len(alpha))])})
+				} else {
+					w = o
+				}
+			} else {
+				n := 1 + c.Rng.Intn(5)
+				b := make([]byte, n)
+				for i := range b {
+					b[i] = byte(alpha[c.Rng.Intn(len(alpha))])
+				}
+				w = string(b)
+			}
+			inserted = append(inserted, w)
+			// queries: all prefixes of inserted words + a few random words
+			qs := map[string]bool{"": true}
+			for _, x := range inserted {
+				for k := 1; k <= len(x); k++ {
+					qs[x[:k]] = true
+				}
+				if len(x) < 5 {
+					qs[x+"a"] = true
+				}
+			}
+			var ql []string
+			for q := range qs {
+				ql = append(ql, q)
+			}
+			sort.Strings(ql)
+			rec.insert(w, ql)
+		}
+		c.Case("tv:"+strings.Join(inserted, ","), true)
+	}
+	traceBytes := rec.buf.Bytes()
+	tvRun := startTLC(c20TraceOpt(traceBytes, alpha))
+	// 3 (started here). binding self-test: a corrupted observation must be rejected by the trace spec: a membership answer
+	// flipped, and the line TAB returned made one byte shorter.
+	badMem := bytes.Replace(traceBytes, []byte(`],1]`), []byte(`],0]`), 1)
+	badTab, err := c20CorruptCompletion(traceBytes)
+	if err != nil {
+		c.Infra(err)
+		return
+	}
+	badRuns := []tlcFuture{startTLC(c20TraceOpt(badMem, alpha)), startTLC(c20TraceOpt(badTab, alpha))}
+
+	type space struct {
+		alpha          []int
+		maxLen, maxSet int
+		names          []string // identifiers the evaluator records (Trie.tla Names); nil = plain insertions only
+	}
+	var spaces []space
+	sessionAlpha := []int{32, 40, 97, 98} // two letters and the two suffixes record() appends
+	if c.Thorough() {
+		spaces = []space{{[]int{97, 98}, 3, 14, nil}, {[]int{0, 97, 255}, 2, 12, nil}, {[]int{97, 98, 99}, 2, 12, nil}, {[]int{0, 1, 254, 255}, 2, 5, nil},
+			{sessionAlpha, 3, 12, []string{"a", "ab", "b", "ba"}}}
+	} else {
+		spaces = []space{{[]int{97, 98}, 3, 4, nil}, {[]int{0, 97, 255}, 2, 5, nil}, {sessionAlpha, 3, 4, []string{"a", "ab", "b"}}}
+	}
+	exhaustive := true
+	genRuns := make([]tlcFuture, len(spaces))
+	for i, sp := range spaces {
+		genRuns[i] = startTLC(TLCOpt{Spec: "Trie", Cfg: trieCfg(sp.alpha, sp.maxLen, sp.maxSet, true, true, false, sp.names...), Workers: c.Pick(4, 8), Timeout: 0})
+	}
+	r, err := designRun()
 	if err != nil {
 		c.Infra(err)
 		return
@@ -308,27 +732,16 @@ func checkC20(c *Ctx) {
 		return
 	}
 	c.Cov("design_counterexample_without_repair", "MembershipOK violated (word inserted after a longer word it prefixes)")
-
-	type space struct {
-		alpha          []int
-		maxLen, maxSet int
-	}
-	var spaces []space
-	if c.Thorough() {
-		spaces = []space{{[]int{97, 98}, 3, 14}, {[]int{0, 97, 255}, 2, 12}, {[]int{97, 98, 99}, 2, 12}, {[]int{0, 1, 254, 255}, 2, 5}}
-	} else {
-		spaces = []space{{[]int{97, 98}, 3, 4}, {[]int{0, 97, 255}, 2, 5}}
-	}
-	exhaustive := true
-	for _, sp := range spaces {
-		r, err := c.TLC(TLCOpt{Spec: "Trie", Cfg: trieCfg(sp.alpha, sp.maxLen, sp.maxSet, true, true, false), Workers: 8, Timeout: 0})
+	for i, sp := range spaces {
+		r, err := genRuns[i]()
 		if err != nil {
 			c.Infra(err)
 			return
 		}
 		universe := allWords(sp.alpha, sp.maxLen, false)
 		prefixes := allWords(sp.alpha, sp.maxLen, true)
-		n := 0
+		lap(fmt.Sprintf("GEN TLC %v", sp.names))
+		n, recorded := 0, 0
 		err = ReadLines(r.Emitted, func(line []byte) error {
 			var g trieGenLine
 			if err := json.Unmarshal(line, &g); err != nil {
@@ -351,36 +764,81 @@ func checkC20(c *Ctx) {
 				_ = json.Unmarshal(pr[1], &k)
 				lcp[bytesOf(p)] = k
 			}
-			tr := trieReplayCase(g.H, g.W)
-			key := fmt.Sprint(g.H, g.W)
-			c.Case(key, len(g.H) > 0)
-			if n%5000 == 1 {
-				c.Sample(map[string]any{"witness_inserts": g.H, "insert": g.W, "predicted_set": g.Set})
+			last := trieOp{g.Op, g.W}
+			ts, err := trieReplayOps(g.H, last, nil)
+			if err != nil {
+				return err
 			}
-			msg := trieObserve(tr, set, universe, prefixes, lcp)
+			// what RegisterTrie adds by itself (`info `) is in the index too: the predicted common prefix applies where no such word matches
+			withBase := func(ts *trieSession) {
+				for _, bw := range ts.base {
+					set[bw] = true
+					for p := range lcp {
+						if strings.HasPrefix(bw, p) {
+							delete(lcp, p)
+						}
+					}
+				}
+			}
+			withBase(ts)
+			if ts.st != nil {
+				recorded++
+			}
+			key := fmt.Sprint(g.H, g.Op, g.W)
+			c.Case(key, len(g.H) > 0)
+			if n%5000 == 1 || (sp.names != nil && n%2000 == 77) {
+				c.Sample(map[string]any{"witness_history": g.H, "op": g.Op, "word": g.W, "predicted_set": g.Set})
+			}
+			msg := trieObserveAC(ts.ac, set, universe, prefixes, lcp)
 			if msg == "" && n%3 == 0 { // the same transition as a session with one long-lived completion object
-				msg = trieObserveAC(trieReplaySession(g.H, g.W, prefixes), set, universe, prefixes, lcp)
-				// ... and TAB hit on the SAME input before and after the insertion (nothing else in between)
+				ts, err = trieReplayOps(g.H, last, prefixes)
+				if err != nil {
+					return err
+				}
+				withBase(ts)
+				msg = trieObserveAC(ts.ac, set, universe, prefixes, lcp)
+				// ... and TAB hit on the SAME input before and after the step (nothing else in between)
+				target := bytesOf(g.W)
 				for i := 0; msg == "" && i < len(prefixes); i++ {
-					if !strings.HasPrefix(bytesOf(g.W), prefixes[i]) {
+					if !strings.HasPrefix(target, prefixes[i]) {
 						continue
 					}
 					one := []string{prefixes[i]}
-					msg = trieObserveAC(trieReplaySession(g.H, g.W, one), set, nil, one, lcp)
+					ts, err = trieReplayOps(g.H, last, one)
+					if err != nil {
+						return err
+					}
+					msg = trieObserveAC(ts.ac, set, nil, one, lcp)
 				}
 			}
 			if msg != "" {
 				sig := "trie-mismatch"
+				if g.Op != "ins" {
+					sig = "trie-mismatch-after-recorded-definition"
+				}
 				// narrow signature of the pre-repair defect: the inserted word is a proper prefix of an earlier word
 				for _, x := range g.H {
-					if len(x) > len(g.W) && bytesOf(x)[:len(g.W)] == bytesOf(g.W) {
+					if g.Op == "ins" && x.Op == "ins" && len(x.W) > len(g.W) && bytesOf(x.W)[:len(g.W)] == bytesOf(g.W) {
 						sig = "trie-insert-prefix-of-existing-word"
 					}
 				}
-				c.Fail(sig, msg, map[string]any{"check": "gen", "alphabet": sp.alpha, "maxlen": sp.maxLen, "h": g.H, "w": g.W})
+				// all leaves of all tries of the process share one end marker: when a brand new index misbehaves after this history,
+				// the history reached that shared node and nothing observed later in this process can be judged
+				leak := c20FreshIndexProbe()
+				if leak != "" {
+					sig, msg = sig+"-and-leaks-into-new-indexes", msg+"; afterwards "+leak
+				}
+				c.Fail(sig, msg, map[string]any{"check": "gen", "alphabet": sp.alpha, "maxlen": sp.maxLen, "ops": append(append([]trieOp{}, g.H...), last)})
+				if leak != "" {
+					return errC20Stop
+				}
 			}
 			return nil
 		})
+		if err == errC20Stop {
+			c.Note("C20 stopped after the first history that changed the behaviour of indexes created afterwards (process-wide state of package trie)")
+			return
+		}
 		if err != nil {
 			c.Infra(err)
 			return
@@ -389,9 +847,18 @@ func checkC20(c *Ctx) {
 			c.Infra(fmt.Errorf("Trie GEN emitted nothing"))
 			return
 		}
+		if sp.names != nil && recorded == 0 {
+			c.Infra(fmt.Errorf("vacuous: Trie GEN with Names=%v replayed no recorded definition", sp.names))
+			return
+		}
 		c.AddTraces(int64(n))
+		nWords := len(universe)
+		if sp.names != nil {
+			nWords = 3 * len(sp.names) // the session vocabulary: name, name + " ", name + "("
+			c.Cov("recorded_definition_transitions", recorded)
+		}
 		full := 1
-		for i := 0; i < len(universe); i++ {
+		for i := 0; i < nWords; i++ {
 			full *= 2
 			if full > 1<<30 {
 				break
@@ -400,133 +867,35 @@ func checkC20(c *Ctx) {
 		if int64(full) != r.Distinct {
 			exhaustive = false
 		}
-		c.Note("Trie GEN alphabet=%v maxlen=%d maxset=%d: %d states, %d transitions replayed", sp.alpha, sp.maxLen, sp.maxSet, r.Distinct, n)
+		c.Note("Trie GEN alphabet=%v maxlen=%d maxset=%d names=%v: %d states, %d transitions replayed", sp.alpha, sp.maxLen, sp.maxSet, sp.names, r.Distinct, n)
+		lap(fmt.Sprintf("GEN %v", sp.names))
 	}
 	c.Cov("exhaustive", exhaustive)
 
-	// 2. TV: random longer histories on the real trie, validated by Trie_Trace.tla.
-	alpha := []int{0, 97, 98, 255}
-	nTraces := c.Pick(60, 600)
-	var buf bytes.Buffer
-	enc := json.NewEncoder(&buf)
-	events := 0
-	for t := 0; t < nTraces; t++ {
-		_ = enc.Encode(map[string]any{"e": "reset"})
-		events++
-		tr := trie.NewTrie()
-		var inserted []string
-		steps := 3 + c.Rng.Intn(8)
-		for s := 0; s < steps; s++ {
-			var w string
-			if len(inserted) > 0 && c.Rng.Intn(3) == 0 { // prefix or extension of an earlier word
-				o := inserted[c.Rng.Intn(len(inserted))]
-				if c.Rng.Intn(2) == 0 && len(o) > 1 {
-					w = o[:1+c.Rng.Intn(len(o)-1)]
-				} else if len(o) < 5 {
-					w = o + string([]byte{byte(alpha[c.Rng.Intn(len(alpha))])})
-				} else {
-					w = o
-				}
-			} else {
-				n := 1 + c.Rng.Intn(5)
-				b := make([]byte, n)
-				for i := range b {
-					b[i] = byte(alpha[c.Rng.Intn(len(alpha))])
-				}
-				w = string(b)
-			}
-			tr.Insert(w)
-			inserted = append(inserted, w)
-			// queries: all prefixes of inserted words + a few random words
-			qs := map[string]bool{"": true}
-			for _, x := range inserted {
-				for k := 1; k <= len(x); k++ {
-					qs[x[:k]] = true
-				}
-				if len(x) < 5 {
-					qs[x+"a"] = true
-				}
-			}
-			var ql []string
-			for q := range qs {
-				ql = append(ql, q)
-			}
-			sort.Strings(ql)
-			var mem, q []any
-			for _, x := range ql {
-				if x != "" {
-					m := 0
-					if tr.Contains(x) {
-						m = 1
-					}
-					mem = append(mem, []any{intsOf(x), m})
-				}
-				n, ws := tr.PrefixAll(x)
-				wl := make([][]int, len(ws))
-				for i, y := range ws {
-					wl[i] = intsOf(y)
-				}
-				q = append(q, []any{intsOf(x), n, wl})
-			}
-			_ = enc.Encode(map[string]any{"e": "ins", "w": intsOf(w), "mem": mem, "q": q})
-			events++
-		}
-		c.Case("tv:"+strings.Join(inserted, ","), true)
-	}
-	traceBytes := buf.Bytes()
-	r, err = c.TLC(TLCOpt{Spec: "Trie_Trace", Cfg: trieCfg(alpha, 6, 1000, true, false, true), Workers: 1,
-		Files: map[string][]byte{"trie_trace.ndjson": traceBytes}, AllowError: true})
-	if err != nil {
-		c.Infra(err)
+	if !c20JudgeTrace(c, tvRun, traceBytes, "trie-trace-rejected") {
 		return
 	}
-	if r.ErrText != "" {
-		if !strings.Contains(r.Out, "TRACE_REJECTED_AT_LINE") {
-			c.Infra(fmt.Errorf("Trie_Trace failed: %s", r.ErrText))
-			return
-		}
-		line := 0
-		if i := strings.Index(r.Out, "TRACE_REJECTED_AT_LINE"); i >= 0 {
-			fmt.Sscanf(strings.Trim(r.Out[i+len("TRACE_REJECTED_AT_LINE"):i+len("TRACE_REJECTED_AT_LINE")+14], "\", >\n"), "%d", &line)
-		}
-		lines := bytes.Split(traceBytes, []byte("\n"))
-		// cut the rejected trace out (from its reset to the rejected line) for the replay file
-		start := line - 1
-		for start > 0 && !bytes.Contains(lines[start], []byte(`"reset"`)) {
-			start--
-		}
-		var ws [][]int
-		for _, ln := range lines[start:min(line, len(lines))] {
-			var ev struct {
-				W []int `json:"w"`
-			}
-			_ = json.Unmarshal(ln, &ev)
-			if ev.W != nil {
-				ws = append(ws, ev.W)
-			}
-		}
-		c.Fail("trie-trace-rejected", fmt.Sprintf("Trie_Trace rejected the recorded trace at line %d", line),
-			map[string]any{"check": "tv", "inserts": ws})
-	} else {
-		c.AddTraces(int64(nTraces))
+	c.AddTraces(int64(nTraces))
+	c.Cov("tv_events", rec.events)
+	lap("TV random")
+	if !c20JudgeTrace(c, wideRun, wide.buf.Bytes(), "trie-trace-rejected-wide-node") {
+		return
 	}
-	c.Cov("tv_events", events)
-
-	// 3. binding self-test: a corrupted observation must be rejected by the trace spec.
-	if c.Thorough() || true {
-		bad := bytes.Replace(traceBytes, []byte(`],1]`), []byte(`],0]`), 1)
-		r, err := c.TLC(TLCOpt{Spec: "Trie_Trace", Cfg: trieCfg(alpha, 6, 1000, true, false, true), Workers: 1,
-			Files: map[string][]byte{"trie_trace.ndjson": bad}, AllowError: true})
+	c.Cov("tv_wide_node_events", wide.events)
+	lap("TV wide")
+	for i, f := range badRuns {
+		r, err := f()
 		if err != nil {
 			c.Infra(err)
 			return
 		}
 		if !strings.Contains(r.Out, "TRACE_REJECTED_AT_LINE") {
-			c.Infra(fmt.Errorf("vacuous binding: corrupted trie trace was accepted"))
+			c.Infra(fmt.Errorf("vacuous binding: corrupted trie trace (%s) was accepted", []string{"membership answer flipped", "completion line cut"}[i]))
 			return
 		}
-		c.Cov("sabotage_rejected", true)
 	}
+	c.Cov("sabotage_rejected", true)
+	lap("self-test")
 	c20EvalFed(c)
 }
 
@@ -546,26 +915,53 @@ func replayC20(rp map[string]any) (bool, string) {
 		_ = json.Unmarshal(b, &res)
 		return res
 	}
-	var words [][]int
-	if rp["check"] == "gen" {
-		words = toWords(rp["h"])
+	var ops []trieOp
+	if rp["check"] == "gen" && rp["ops"] != nil {
+		b, _ := json.Marshal(rp["ops"])
+		_ = json.Unmarshal(b, &ops)
+	} else if rp["check"] == "gen" { // replay files written before histories had recorded definitions
+		for _, w := range toWords(rp["h"]) {
+			ops = append(ops, trieOp{"ins", w})
+		}
 		var w []int
 		b, _ := json.Marshal(rp["w"])
 		_ = json.Unmarshal(b, &w)
-		words = append(words, w)
+		ops = append(ops, trieOp{"ins", w})
 	} else {
-		words = toWords(rp["inserts"])
+		for _, w := range toWords(rp["inserts"]) {
+			ops = append(ops, trieOp{"ins", w})
+		}
 	}
-	tr := trie.NewTrie()
+	if len(ops) == 0 {
+		return false, "bad replay file: no history"
+	}
+	ts, err := trieReplayOps(ops[:len(ops)-1], ops[len(ops)-1], nil)
+	if err != nil {
+		return false, err.Error()
+	}
+	tr := ts.ac.Trie
 	set := map[string]bool{}
 	universe := map[string]bool{}
-	for _, w := range words {
-		s := bytesOf(w)
-		tr.Insert(s)
+	add := func(s string) {
 		set[s] = true
 		for k := 1; k <= len(s); k++ {
 			universe[s[:k]] = true
 		}
+		for _, suf := range []string{" ", "(", "  ", " ("} { // what a definition appends, once more than it should
+			universe[s+suf] = true
+		}
+	}
+	for _, o := range ops {
+		s := bytesOf(o.W)
+		add(s)
+		if o.Op == "var" {
+			add(s + " ")
+		} else if o.Op == "func" {
+			add(s + "(")
+		}
+	}
+	for _, bw := range ts.base {
+		add(bw)
 	}
 	var u, p []string
 	p = append(p, "")
